@@ -28,11 +28,13 @@ TraceInit ==
     /\ l = 1 /\ jlAt = <<>>
     /\ main = [a \in Addr |-> Absent] /\ codeTbl = [c \in Code |-> 0] /\ tries = <<>> /\ holder = NoHolder
     /\ journal = <<>> /\ committed = [main |-> main, codeTbl |-> codeTbl] /\ persisted = {}
+    /\ hnd = [a \in Addr |-> <<>>]
     /\ stateAt = (0 :> Abs) /\ expect = Abs /\ hist = <<>>
 TNew ==
     /\ IsEvent("New")
     /\ main' = [a \in Addr |-> Absent] /\ codeTbl' = [c \in Code |-> 0] /\ tries' = <<>> /\ holder' = NoHolder
     /\ journal' = <<>> /\ committed' = [main |-> main', codeTbl |-> codeTbl'] /\ persisted' = {}
+    /\ hnd' = [a \in Addr |-> <<>>]
     /\ stateAt' = (0 :> Abs') /\ expect' = Abs'
     /\ hist' = <<[a |-> "New", in |-> Ev.in, out |-> Ev.out, st |-> Abs']>>
     /\ jlAt' = (Ev.i :> 0)
